@@ -47,6 +47,8 @@ def _run(facts_path):
     out = {'records': [], 'notes': [], 'exits': 0}
     if KEY not in f.bodies:
         out['notes'].append(f"{KEY}: no such function; the denotation of numeric text is undecided")
+        for clause, ok, why in year_sign(I, State, f, out):
+            out['records'].append({'prop': 'C05', 'clause': clause, 'ok': ok, 'detail': why if not ok else ''})
         return out
     recs = []
     for sign in ('', '+', '-'):
@@ -115,6 +117,7 @@ def _run(facts_path):
                     out['notes'].append(f"{KEY}: negative flag {neg!r} not decided on an exit ({tag})")
             recs.append((f"parse_number N-accept: digit text of the full field width is accepted ({'no sign' if not sign else repr(sign)})", full,
                          f"max_len {ml}: no Ok exit consumes {ml} digits"))
+    recs += year_sign(I, State, f, out)
     seen = set()
     for clause, ok, why in recs:
         k = (clause, ok, why if ok is False else '')
@@ -123,6 +126,79 @@ def _run(facts_path):
         seen.add(k)
         out['records'].append({'prop': 'C05', 'clause': clause, 'ok': ok, 'detail': why if not ok else ''})
     return out
+
+
+def _pred_syms(p, acc):
+    if isinstance(p, Form):
+        acc.update(s for s, _ in p.terms)
+    elif isinstance(p, tuple):
+        for x in p:
+            _pred_syms(x, acc)
+    return acc
+
+
+def _base_syms(syms):
+    from .lin import SYMTAB
+    out, todo = set(), list(syms)
+    while todo:
+        x = todo.pop()
+        info = SYMTAB.syms[x]
+        if info.kind == 'div' and info.data:
+            todo.extend(s for s, _ in info.data[0].terms)
+        else:
+            out.add(x)
+    return out
+
+
+def year_sign(I, State, f, out):
+    """`parse_year` (year completion) hands the caller the sign of the TEXT: Y-sign - on every Ok exit the flag is the constant
+    (prefix is '-').  A flag that is a wrong constant, or a predicate over clock-derived values, is refuted; any other undecided
+    flag is a note."""
+    from .lin import SYMTAB
+    recs = []
+    keys = sorted(k for k in f.bodies if k.startswith('format::parse_year'))
+    if not keys:
+        out['notes'].append('format::parse_year: no such function; the sign flag of a completed year is undecided')
+        return recs
+    for key in keys:
+        body = f.body(key)
+        try:
+            for sign in ('', '+', '-'):
+                for ml in (1, 2, 3, 4):
+                    st = State()
+                    pre = [VInt(Form.const(ord(sign)), 'u8')] if sign else []
+                    ds = [I.fresh_int(st, 'u8', f'd{i}', 48, 57) for i in range(ml)]
+                    nxt = I.fresh_int(st, 'u8', 'next', 0, 255)
+                    arr = VArray(pre + ds + [nxt], 'u8')
+                    sl = VSlice(('carr', id(arr)), Form.const(0), Form.const(len(arr.elems)), ('vals', arr), 'u8')
+                    clo = I.top(st, body['locals'][3]['ty'], 'now')
+                    res = I.call_local(st, key, [sl, VInt(Form.const(ml), 'usize'), clo])
+                    tag = f"{'no sign' if not sign else repr(sign)}"
+                    clause = f"parse_year Y-sign: the negative flag is the sign of the text ({tag})"
+                    for s2, v in res:
+                        if not isinstance(v, VAdt) or v.single() != 0:
+                            continue
+                        t = v.variants[0][0]
+                        if not isinstance(t, VTuple) or len(t.elems) != 3:
+                            continue
+                        neg = t.elems[0]
+                        out['exits'] += 1
+                        if isinstance(neg, VBool) and neg.val is not None:
+                            recs.append((clause, neg.val == (sign == '-'), f"year code of {ml} letter(s): flag {neg.val}"))
+                            continue
+                        p = I.bool_pred(neg) if isinstance(neg, VBool) else None
+                        syms = _base_syms(_pred_syms(p, set())) if p is not None else set()
+                        text = {d.form.terms[0][0] for d in ds} | {nxt.form.terms[0][0]}
+                        foreign = sorted(SYMTAB.syms[x].name for x in syms - text)
+                        if foreign:
+                            recs.append((clause, False, f"year code of {ml} letter(s): the flag is not a function of the text - it is decided by {p!r}, which depends on {foreign[:3]}"))
+                        else:
+                            out['notes'].append(f"{key}: sign flag {neg!r} not decided on an exit ({tag}, {ml})")
+        except AnalysisIncomplete as e:
+            out['notes'].append(f"{key}: not analysable ({str(e)[:140]}); the sign flag of a completed year is undecided")
+        except Exception as e:
+            out['notes'].append(f"{key}: the stage could not drive the function ({type(e).__name__}: {str(e)[:140]}); undecided")
+    return recs
 
 
 def witness_strings(k):
